@@ -604,7 +604,12 @@ func ConstRefFunc(f uint32) []byte   { return append([]byte{0xd2}, u(f)...) }
 // binary: well-formed DWARF 4 whose single compilation unit covers code offsets 1..1+2^20 and whose line
 // table has rows but NO file entries (a row without a file).  Guest-chosen bytes: whatever reads them
 // while building a stack trace must cope.
-func DegenerateDWARF() []byte {
+func DegenerateDWARF() []byte { return DegenerateDWARFKind(0) }
+
+// DegenerateDWARFKind: 0 = the sections above; 1 = the line table left behind after .debug_info was
+// stripped; 2 = a truncated .debug_info.  Incomplete debug sections are what strip tools leave: the module
+// itself is valid.
+func DegenerateDWARFKind(kind int) []byte {
 	le32 := func(v uint32) []byte { return []byte{byte(v), byte(v >> 8), byte(v >> 16), byte(v >> 24)} }
 	abbrev := []byte{1, 0x11, 0, 0x10, 0x17, 0x11, 0x01, 0x12, 0x06, 0, 0, 0}
 	infoBody := []byte{4, 0, 0, 0, 0, 0, 4, 1}
@@ -619,11 +624,20 @@ func DegenerateDWARF() []byte {
 	lineBody = append(lineBody, hdrRest...)
 	lineBody = append(lineBody, program...)
 	line := append(le32(uint32(len(lineBody))), lineBody...)
+	switch kind {
+	case 1:
+		info = nil
+	case 2:
+		info = info[:len(info)-3]
+	}
 	var out []byte
 	for _, s := range []struct {
 		name string
 		data []byte
 	}{{".debug_abbrev", abbrev}, {".debug_info", info}, {".debug_line", line}} {
+		if s.data == nil {
+			continue
+		}
 		body := append(ULEB(uint64(len(s.name))), s.name...)
 		body = append(body, s.data...)
 		out = append(out, 0)
